@@ -1,6 +1,7 @@
 import MoneroModel.Drv.Util
 import MoneroModel.Drv.C20
 import MoneroModel.Drv.CryptoRef
+import MoneroModel.Model.Keys
 import MoneroModel.Model.SubAddr
 import MoneroModel.Spec.Sender
 import MoneroModel.Spec.Address
@@ -58,6 +59,12 @@ open C10 in
 def stepC10 : Step
   | ["c10_derive", a, b] =>
     some (showPt (do let a ← scalarOf a; let B ← ptModel b; pure (derive refOps a B)),
+          showPt (do let a ← scalarOf a; let B ← ptSpec b; pure (Spec.Sender.derivation refPrims a B)))
+  | ["c10_derive_wire", a, b] =>
+    -- the key arrives in consensus form: `Keys.publicConsensusDecode` (strict: exactly 32 bytes here), then the derivation
+    some (showPt (do let a ← scalarOf a
+                     let B ← (match Keys.publicConsensusDecode (Hex.decode b) with | some (k, []) => refOps.dec k | _ => none)
+                     pure (derive refOps a B)),
           showPt (do let a ← scalarOf a; let B ← ptSpec b; pure (Spec.Sender.derivation refPrims a B)))
   | ["c10_derive_sender", r, v] =>
     some (showPt (do let r ← scalarOf r; let V ← ptModel v; pure (derive refOps r V)),
